@@ -130,6 +130,9 @@ inductive Act where
   | lookup (sid : Nat)     -- request(domain, callback = script number `sid`)
   | cancel (id : Nat)      -- cancel(id)
   | cancelSelf             -- cancel(the id of the lookup whose callback is running)
+  | servers (n : Nat)      -- setDnsIPAddresses(n addresses)
+  | running (id : Nat)     -- isRunning(id)
+  | runningSelf            -- isRunning(the id of the lookup whose callback is running)
 deriving Repr, DecidableEq
 
 /-- `DnsRequest::Request`; the callback is the script, identified by the lookup's serial number -/
@@ -209,18 +212,23 @@ def cancel (st : St) (id : Nat) : St × Bool :=
   | none => (st, false)
   | some r => ({ st with reqs := erase st.reqs id, cancelled := r.serial :: st.cancelled }, true)
 
+/-- one API call made from inside the callback of lookup `self`: new state and return value -/
+def doAct (self : Nat) (st : St) : Act → St × Nat
+  | .lookup sid => lookup st sid
+  | .cancel id => ((cancel st id).1, if (cancel st id).2 then 1 else 0)
+  | .cancelSelf => ((cancel st self).1, if (cancel st self).2 then 1 else 0)
+  | .servers n => ({ st with servers := n }, 0)
+  | .running id => (st, if (find st.reqs id).isSome then 1 else 0)
+  | .runningSelf => (st, if (find st.reqs self).isSome then 1 else 0)
+
 /-- the body of a callback: the API calls of its script, in order (none of them can run another
 callback synchronously) -/
 def runScript (self : Nat) : St → List Act → St × List (Act × Nat)
   | st, [] => (st, [])
   | st, a :: as =>
-    let (st1, ret) : St × Nat :=
-      match a with
-      | .lookup sid => lookup st sid
-      | .cancel id => let (s, b) := cancel st id; (s, if b then 1 else 0)
-      | .cancelSelf => let (s, b) := cancel st self; (s, if b then 1 else 0)
-    let (st2, outs) := runScript self st1 as
-    (st2, (a, ret) :: outs)
+    let r := doAct self st a
+    let (st2, outs) := runScript self r.1 as
+    (st2, (a, r.2) :: outs)
 
 /-- `Callback cb = std::move(req->cb); deleteRequest(req_id); if (cb) cb(result);`
 The lookup is erased BEFORE its callback runs: inside the callback the own id is no longer
@@ -284,7 +292,9 @@ inductive Op where
   | lookup (sid : Nat)
   | cancel (id : Nat)
   | running (id : Nat)
-  | recv (d : List Byte)
+  | recv (d : List Byte)       -- onUdpRecv(d) called directly
+  | net (d : List Byte)        -- a datagram sent to the client's UDP socket: UdpSocket::onSocketEvent reads at most
+                               -- RECV_BUFF_SIZE = 4096 bytes of it and hands them to onUdpRecv
   | tick
 deriving Repr, DecidableEq
 
@@ -301,6 +311,7 @@ def step (st : St) : Op → St × Out
   | .cancel id => let (s, b) := cancel st id; (s, { ret := if b then 1 else 0 })
   | .running id => (st, { ret := if (find st.reqs id).isSome then 1 else 0 })
   | .recv d => let (s, e) := onRecv st d; (s, { events := e })
+  | .net d => let (s, e) := onRecv st (d.take 4096); (s, { events := e })
   | .tick => let (s, e) := tick st; (s, { events := e })
 
 def init : St := {}
